@@ -18,7 +18,7 @@ from .. import multi
 
 ID = "C10"
 LEVEL = "exploration"
-RULE = ("random for_all queries: universal variable of kind P or Q (|U| 1-4) or the attribute expression q.p of it, "
+RULE = ("random for_all queries: universal variable of kind P or Q (|U| 1-4), the attribute expression q.p of it, or a restricted entity an(entity(u, restriction)) with the condition written over the variable or over the entity, "
         "1-3 free variables, condition trees of depth 0-3 over the full vocabulary (leaves, negations, conjunctions, "
         "disjunctions) mentioning the universal only / the free variables only / both, optionally and_-combined with a "
         "condition on the free variables in either order; all free variables selected; caching on and off. "
@@ -40,7 +40,7 @@ def floors(tier):
     return {"distinct_nontrivial": 200, "re:ForAll(@.*)?\\.enter": 1000, "cls:U>=2": 1000, "cls:cond:compound": 500,
             "cls:cond:or": 200, "cls:cond:and": 200, "cls:cond:not": 100, "cls:mentions:both": 300,
             "cls:mentions:universal_only": 30, "cls:mentions:free_only": 30, "cls:extra:first": 100,
-            "cls:extra:second": 100, "cls:u_expr": 100, "cls:caching_off": 200, "cls:nfree=2": 200, "cls:nfree=3": 50}
+            "cls:extra:second": 100, "cls:u_expr": 100, "cls:u_restricted_entity": 300, "cls:caching_off": 200, "cls:nfree=2": 200, "cls:nfree=3": 50}
 
 
 def gen_case(rng):
@@ -55,8 +55,16 @@ def gen_case(rng):
         fk = kinds[1:]
         e = C.gen_cond(rng, fk, rng.choice([0, 1]), {"preds": False})
         extra = _shift(e, 1)
-    return {"world": world, "kinds": kinds, "cond": cond, "extra": extra, "extra_first": rng.random() < 0.5,
+    case = {"world": world, "kinds": kinds, "cond": cond, "extra": extra, "extra_first": rng.random() < 0.5,
             "u_expr": kinds[0] == "Q" and rng.random() < 0.4, "caching": rng.random() < 0.7}
+    if not case["u_expr"] and rng.random() < 0.3:
+        # the universal is a restricted entity an(entity(u, restriction)): the statement ranges over its solutions only
+        restr = ["cmp", rng.choice(["<=", ">", "!=", "=="]), ["v", 0, [["a", rng.choice("ab")]]], ["lit", rng.randint(1, 3)]]
+        objs = D.build_world(world)[kinds[0]]
+        if any(C.holds(restr, (o,)) for o in objs):      # non-empty universal domain (the statement's premise)
+            case["u_restr"] = restr
+            case["u_cond_on_entity"] = rng.random() < 0.6
+    return case
 
 
 def _shift(c, by):
@@ -81,6 +89,8 @@ def expected(case, world):
     m = H.labels_of(world)
     doms = H.domains(world, case["kinds"])
     U = doms[0]
+    if case.get("u_restr"):
+        U = [u for u in U if C.holds(case["u_restr"], (u,))]
     out = []
     for f in itertools.product(*doms[1:]):
         if all(C.holds(case["cond"], (u,) + f) for u in U) and (case["extra"] is None or C.holds(case["extra"], (None,) + f)):
@@ -98,7 +108,13 @@ def run(case, world, caching, times=1):
         with symbolic_mode():
             xs = H.declare(case["kinds"], doms)
             u = xs[0].p if case.get("u_expr") else xs[0]
-            fa = for_all(u, C.build(case["cond"], xs, 0, False))
+            cxs = xs
+            if case.get("u_restr"):
+                from entity_query_language import entity
+                u = an(entity(xs[0], C.build(case["u_restr"], [xs[0]], 0, False)))
+                if case.get("u_cond_on_entity"):
+                    cxs = [u] + list(xs[1:])      # the condition is written over the entity itself
+            fa = for_all(u, C.build(case["cond"], cxs, 0, False))
             if case["extra"] is not None:
                 e = C.build(case["extra"], xs, 0, False)
                 cond = and_(e, fa) if case["extra_first"] else and_(fa, e)
@@ -141,6 +157,9 @@ def check_case(case, ctx):
         ctx.cls("cls:extra:first" if case["extra_first"] else "cls:extra:second")
     if case.get("u_expr"):
         ctx.cls("cls:u_expr")
+    if case.get("u_restr"):
+        ctx.cls("cls:u_restricted_entity")
+        nU = len([u for u in world[case["kinds"][0]] if C.holds(case["u_restr"], (u,))])
     total = 1
     for k in case["kinds"][1:]:
         total *= len(world[k])
